@@ -21,9 +21,10 @@ ap.add_argument('id')
 ap.add_argument('--tier', default='quick')
 ap.add_argument('--keep', action='store_true')
 ap.add_argument('--name', default=None)
+ap.add_argument('--dir', default=None, help='sub-directory of OUTDIR holding the artefacts (default: ID)')
 a = ap.parse_args()
 VERIF = os.path.dirname(os.path.dirname(os.path.abspath(__file__)))
-d = os.path.join(a.outdir, a.id)
+d = os.path.join(a.outdir, a.dir or a.id)
 patch = os.path.join(d, 'patch.diff')
 wt = a.worktree
 
